@@ -1864,4 +1864,4 @@ fn read_residuals<R: BitRead, I: SignedInteger>(
 // verification hook: inert unless built by `cargo kani` (cfg(kani)); see /verif/DESIGN.md
 #[cfg(kani)]
 #[path = "/verif/harness/decode.rs"]
-mod verif_k;
+pub(crate) mod verif_k;
